@@ -34,11 +34,13 @@ PROPS = {
                 "extremes, empty sets, record keys that look like escapes), 5 (type, instance) pairs each rendered explicit and 2x with a random "
                 "implicit/explicit choice per node, single-point mutations of every document, fixed probe documents at entity/extension positions, "
                 "open/closed record types; non-trivial = round-tripped value / document with >=1 implicit form (distinct by canonical text)",
-        "theorems": ["json_roundtrip", "json_roundtrip_with", "toJson_refuses_iff", "typed_agrees_explicit", "entity_roundtrip", "store_roundtrip",
-                     "extRoundTrip_decimal", "extRoundTrip_duration", "extRoundTrip_datetime"],
+        "theorems": ["json_roundtrip", "json_roundtrip_with", "json_roundtrip_noIp", "toJson_refuses_iff", "toJson_error_is_reserved",
+                     "typed_agrees_explicit_scalar_partial", "typed_agrees_explicit_entity_partial", "typed_agrees_explicit_ext_partial",
+                     "entity_roundtrip", "store_roundtrip", "extRoundTrip_decimal", "extRoundTrip_duration", "extRoundTrip_datetime"],
         "assumptions": ["extension values are compared by represented value; the implementation serialises the constructor call it stored, the model the canonical_repr (the harness re-renders values canonically for the `to` comparison and parses the implementation's own spelling for `of`)",
                         "ExtRoundTrip for ipaddr (Display of std::net addresses parses back) is a hypothesis of json_roundtrip, checked on the stream; it is false for IPv4-mapped IPv6 addresses, whose canonical_repr is not on the JSON path",
                         "error classes, not messages; object member order and set element order are canonicalised on both sides",
+                        "typed_agrees_explicit is proved in parts (scalar types on all documents; entity types; single-argument extension constructors in bare / implicit / explicit form); the full statement `TypedAgreesExplicit` (all nesting depths, closed record types) is a visible `def`, covered by the correspondence stream (implicit/explicit chosen per node) but not proved",
                         "transitive closure of the parsed parents is C04's subject: store_roundtrip is stated on the parent lists written (= all ancestors)"],
     },
 }
